@@ -6,7 +6,7 @@ import datetime
 
 from .. import envgen, gen, mdgen, proto, schema
 from ..framework import Case, Check
-from .c03 import root_pair
+from .c03 import root_pair, directed_pair
 from .c05 import deleg_case
 from .c15 import nonstring_inputs, entry_inputs
 
@@ -139,6 +139,9 @@ def run(ck: Check) -> None:
         for v in rng.sample(K, 2):
             cases.append(Case("vroot", [v, b], tag="vroot-arg0", group=2000 + i))
             cases.append(Case("vroot", [a, v], tag="vroot-arg1", group=2000 + i))
+    for i in range(ck.n(300, 80)):
+        t_, u_, tag_ = directed_pair(rng)
+        cases.append(Case("vroot", [t_, u_], tag="vroot-directed", group=3000 + i))
     # near-envelopes in every envelope position of every verifier (and the signer's)
     k1 = gen.key(1)
     good_root = gen.sign_env(gen.envelope(gen.root_md([k1], 1, [k1], 1, version=1)), [k1], True, rng)
@@ -176,6 +179,12 @@ def run(ck: Check) -> None:
         named.append((Case("vroot", [t, nr], tag="named:version"), "E MetadataVerificationError"))
         nr2 = gen.sign_env(gen.envelope(gen.root_md(ks, 2, [gen.key(8)], 1, version=4)), ks[:1], True)
         named.append((Case("vroot", [t, nr2], tag="named:root-insufficient"), "E SignatureError"))
+        # enough signatures for the trusted root's rule, too few for the rule the new root declares for itself (a rotation that adds keys / raises the threshold)
+        more = ks + [gen.key(j) for j in range(8, 10)]
+        nr3 = gen.sign_env(gen.envelope(gen.root_md(more, rng.choice([3, 4]), [gen.key(8)], 1, version=4)), ks, True)
+        named.append((Case("vroot", [t, nr3], tag="named:root-own-rule-insufficient"), "E SignatureError"))
+        nr4 = gen.sign_env(gen.envelope(gen.root_md([gen.key(10), gen.key(11)], 1, [gen.key(8)], 1, version=4)), [gen.key(10)], True)
+        named.append((Case("vroot", [t, nr4], tag="named:root-trusted-rule-insufficient"), "E SignatureError"))
         named.append((Case("vsignable", [gen.sign_env(gen.envelope([1, 2]), ks[:1], False), [k.hex for k in ks], 2, False], tag="named:signable-insufficient"), "E SignatureError"))
     res = ck.run_cases([n[0] for n in named], "corr:named-error-mappings/outcome-class")
     for (c, want), r in zip(named, res):
